@@ -2,8 +2,10 @@
 """prints the sub-agent prompt for a property id (property text only, nothing from /verif's machinery)"""
 import json, sys
 pid = sys.argv[1]
+rnd = sys.argv[2] if len(sys.argv) > 2 else ""          # e.g. "2": a later round, told what was tried before
 p = [json.loads(l) for l in open("/verif/properties.jsonl") if json.loads(l)["id"] == pid][0]
-wt = f"/tmp/mut_{pid}"
+wt = f"/tmp/mut{rnd}_{pid}"
+out = f"/tmp/mutout{rnd}_{pid}"
 redis_note = "redis/diskcache are not installed, so only the in-memory backend (and code importable without redis) can be exercised, unless you write a stub."
 if pid in ("C19", "C20"):
     redis_note = ("The real `redis` package is not installed and no server exists. An in-process stand-in has been copied to /tmp/redis_standin (a package named `redis` implementing the part of "
@@ -12,6 +14,14 @@ if pid in ("C19", "C20"):
                   "srv.down = True` makes every command raise ConnectionError, `srv.drop_connections()` closes the pub/sub connections, `srv.data` is the keyspace, time is time.time()). Put it FIRST on "
                   "sys.path in your demo (sys.path.insert(0, '/tmp/redis_standin')) and use e.g. `cashews.backends.redis.Redis('redis://x', suppress=True)` / `cache.setup('redis://x', client_side=True)`; "
                   "read its source freely. The pytest suite does not use it (its numbers stay as they are).")
+earlier = ""
+if rnd:
+    import glob, os
+    prev = []
+    for d in sorted(glob.glob(f"/verif/seeded/{pid}_*")):
+        prev.append("- " + json.load(open(os.path.join(d, "meta.json"))).get("summary", "")[:400].replace("\n", " "))
+    if prev:
+        earlier = "These changes were already tried in an earlier round - produce changes that differ from them in location AND kind, preferably in parts of the property they do not touch:\n" + "\n".join(prev) + "\n"
 print(f"""You are helping test a verification tool by seeding realistic bugs. Work ONLY inside the git worktree {wt} (a checkout of the Python library Krukov/cashews, an async cache framework). Create it first with:  git -C /repo worktree add --detach {wt} HEAD   (if it already exists, reuse it). NEVER modify /repo itself, and do NOT read or list anything under /verif (that would spoil the experiment). Use /venv/bin/python (the library's deps are installed there; run things with PYTHONPATH={wt}). There is no network. {redis_note}
 
 Here is a semantic property of the library that should hold:
@@ -27,8 +37,8 @@ TASK: produce TWO different, independent source changes (mutations) to the libra
 On the unmodified tree it reports '14 failed, 761 passed, 6 xfailed, 4 xpassed, 766 errors' (the failures/errors are from missing redis/diskcache modules) - your mutated tree must report the same numbers of passed/failed.
 Each mutation should be REALISTIC (the kind of slip a maintainer could make in a refactor: an off-by-one at a boundary, a dropped condition, a wrong variable, a reordered pair of statements, a missing await/cleanup, a wrong default) and SUBTLE: it should need something specific to manifest - a particular multi-step sequence of operations, a particular timing/interleaving, an unusual input, a boundary value, a fault at a particular point, or two cooperating sites that each look fine alone - NOT something ordinary use would expose at once. Make the two mutations differ in kind and location. Note the library may already contain some bugs related to this property; your mutation must introduce a NEW violation (behaviour that is correct on the unmodified tree and wrong on the mutated tree).
 
-For each mutation i in (1, 2) write into the directory /tmp/mutout_{pid}/m<i>/ (create it):
+For each mutation i in (1, 2) write into the directory {out}/m<i>/ (create it):
   - patch.diff : output of `git -C {wt} diff` for that mutation alone (relative to the unmodified HEAD; apply-able with `git apply`)
   - demo.py    : a small self-contained program (run as `PYTHONPATH=<tree> /venv/bin/python demo.py`) that exits 0 and prints PASS on the unmodified tree and exits 1 and prints FAIL on the mutated tree, demonstrating the property violation through the public API. Use real short sleeps only if unavoidable (prefer monkeypatching time.time in cashews.backends.memory etc.).
   - meta.json  : {{"property": "{pid}", "summary": "...what was changed...", "needs": "...what is needed for the violation to manifest...", "suite_result": "...tail line of pytest on the mutated tree..."}}
-Verify yourself: demo passes on clean tree (git stash or `git checkout -- .`), fails on the mutated tree, suite numbers unchanged for each mutation separately. When done, leave the worktree CLEAN (git -C {wt} checkout -- .) but do not remove it. In your final answer, give a 3-line summary per mutation.""")
+Verify yourself: demo passes on clean tree (git stash or `git checkout -- .`), fails on the mutated tree, suite numbers unchanged for each mutation separately. {earlier}When done, leave the worktree CLEAN (git -C {wt} checkout -- .) but do not remove it. In your final answer, give a 3-line summary per mutation.""")
